@@ -29,8 +29,8 @@ SP_KINDS = ['bwrite', 'bappend', 'consume', 'linkN', 'savepoint', 'rollback',
             'commit', 'abort']
 KINDS = ['bwrite', 'bappend', 'consume', 'consume-missing', 'linkN', 'modp',
          'savepoint',
-         'rollback', 'commit', 'abort', 'rival', 'commit-vote-fail', 'undo',
-         'undo-abort', 'pack']
+         'rollback', 'commit', 'abort', 'rival', 'rivalB', 'commit-vote-fail',
+         'commit-pack-inside', 'undo', 'undo-abort', 'pack']
 
 
 def make_spec(cfg):
@@ -190,8 +190,21 @@ class BlobWorld:
             elif k == 'rival':
                 if self.p_dirty and not self.handles and not self.rivalled:
                     ops.append(('rival',))
+            elif k == 'rivalB':
+                # the rival rewrites the blob we have rewritten: our commit
+                # conflicts on the blob itself, before its file is taken
+                if m['B'].dirty and m['B'].owned and not self.handles \
+                        and not self.rivalled:
+                    ops.append(('rivalB',))
             elif k == 'commit-vote-fail':
                 if self.joined:
+                    ops.append((k,))
+            elif k == 'commit-pack-inside':
+                # a pack runs while our transaction has stored its blobs
+                # and has not finished (here: from another participant's
+                # vote).  A MappingStorage packs without the commit lock.
+                if self.joined and self.kind == 'BM' and not self.rivalled \
+                        and not self.handles:
                     ops.append((k,))
             elif k == 'undo-abort':
                 if not self.joined and len(self.txn_log) >= 2 and \
@@ -364,11 +377,22 @@ class BlobWorld:
             self.txn_log.append((self.storage.lastTransaction(), {'p': None}))
             self.rivalled = True
             return 'rival'
+        if k == 'rivalB':
+            self.tm3.abort()
+            data = b'rival-%d;' % self.vcount
+            with self.c3.root()['B'].open('w') as f:
+                f.write(data)
+            self.tm3.commit()
+            tid = self.storage.lastTransaction()
+            m['B'].revs.append((tid, data))
+            self.txn_log.append((tid, {'B': data}))
+            self.rivalled = 'B'
+            return 'rivalB'
         if k == 'abort':
             self.tm.abort()
             self._model_abort()
             return 'abort'
-        if k in ('commit', 'commit-vote-fail'):
+        if k in ('commit', 'commit-vote-fail', 'commit-pack-inside'):
             return self._commit(k)
         if k == 'undo':
             return self._undo(op[1])
@@ -408,9 +432,17 @@ class BlobWorld:
     def _commit(self, how):
         m = self.model
         CE = env.mod('ZODB.POSException').ConflictError
-        expect_conflict = self.rivalled and self.p_dirty
+        expect_conflict = (self.rivalled is True and self.p_dirty) or (
+            self.rivalled == 'B' and m['B'].dirty)
         if how == 'commit-vote-fail':
             self.tm.get().join(connworld.FailingRM('vote'))
+        elif how == 'commit-pack-inside':
+            world_ = self
+
+            class PackingRM(connworld.FailingRM):
+                def tpc_vote(self, txn):
+                    world_.db.pack(env.CLOCK.now)
+            self.tm.get().join(PackingRM('never'))
         try:
             self.tm.commit()
             outcome = 'ok'
@@ -421,7 +453,7 @@ class BlobWorld:
         if outcome != 'ok':
             self.tm.abort()
         exp = 'conflict' if expect_conflict else (
-            'failed' if how != 'commit' else 'ok')
+            'failed' if how == 'commit-vote-fail' else 'ok')
         if outcome != exp:
             self.bad('commit', '%s:%s-instead-of-%s' % (how, outcome, exp),
                      dict(expected=exp, got=outcome))
@@ -433,6 +465,18 @@ class BlobWorld:
             return 'commit-' + outcome
         self._flush()
         tid = self.storage.lastTransaction()
+        if how == 'commit-pack-inside':
+            # what the pack (which saw the state before this commit) did
+            self.packed_upto = max(
+                [t for t, _ in self.txn_log] or [tid])
+            self.dead_files.clear()
+            self.optional_files.clear()
+            for n2, mb2 in m.items():
+                if mb2.revs:
+                    if mb2.c_in_root:
+                        del mb2.revs[:-1]
+                    else:
+                        del mb2.revs[:]
         self._c_in_root_before = m['N'].c_in_root
         wrote = {}
         for n, mb in m.items():
